@@ -32,7 +32,7 @@ SubsetSlot(strat, ma, mb, k, seed) ==
                      va == IF ha THEN MapGet(ma, k) ELSE TopV(proto)
                      vb == IF hb THEN MapGet(mb, k) ELSE TopV(proto)
                  IN SubsetV(va, vb, seed)
-SubsetM(strat, ma, mb, seed) == \ma k \in MapKeys(ma) \cup MapKeys(mb) : SubsetSlot(strat, ma, mb, k, seed)
+SubsetM(strat, ma, mb, seed) == \A k \in MapKeys(ma) \cup MapKeys(mb) : SubsetSlot(strat, ma, mb, k, seed)
 GammaEqM(strat, ma, mb, seed) == SubsetM(strat, ma, mb, seed) /\ SubsetM(strat, mb, ma, seed + 11)
 \* key-wise over the keys of all three maps (a key that only the merge has is checked, too)
 UpperM(strat, x, y, m, seed) == SubsetM(strat, x, m, seed) /\ SubsetM(strat, y, m, seed + 1)
